@@ -19,7 +19,7 @@ import contextlib, string, os, sys, plasTeX, subprocess
 from plasTeX.Tokenizer import Tokenizer, Token, EscapeSequence, Other
 from plasTeX import TeXDocument
 from plasTeX.Base.TeX.Primitives import MathShift
-from plasTeX import ParameterCommand, Macro
+from plasTeX import ParameterCommand, DimenCommand, Macro
 from plasTeX import glue, muglue, mudimen, dimen, number
 from plasTeX.Logging import getLogger, disableLogging, fileLogging
 
@@ -1680,10 +1680,12 @@ class TeX(object):
         """ Read a glue parameter from the stream """
         ParameterCommand.disable()
         sign = self.readOptionalSigns()
-        # internal/coerced glue
+        # internal/coerced glue (a dimen register is only the natural
+        # width and may be followed by plus/minus components)
         for t in self:
             if t.nodeType == Macro.ELEMENT_NODE and \
-               isinstance(t, ParameterCommand):
+               isinstance(t, ParameterCommand) and \
+               not isinstance(t, DimenCommand):
                 ParameterCommand.enable()
                 return glue(sign * glue(t))
             self.pushToken(t)
